@@ -490,6 +490,9 @@ _SPIN_CH0 = {"a", "alpha", "up"}
 def _spin_flip(name, idents):
     """(partner identifier, channel of `name`) when swapping one spin tag of `name` (a token a/b, alpha/beta,
     up/dn, or a token ending in a/b such as rhoa, wvb, dma) gives another identifier of the same function"""
+    if name.endswith(("__0", "__1")):  # elements of a 2-tuple split by sa.unroll
+        n2 = name[:-1] + ("1" if name[-1] == "0" else "0")
+        return (n2, int(name[-1])) if n2 in idents else None
     toks = name.split("_")
     out = []
     for i, t in enumerate(toks):
